@@ -301,3 +301,4 @@ def main(argv: Optional[List[str]] = None) -> int:
         return 2
     finally:
         shutil.rmtree(scratch, ignore_errors=True)
+        shutil.rmtree("/tmp/" + scratch.lstrip("/"), ignore_errors=True)     # restore_cpgraph extracts archives to /tmp/<archive path>
